@@ -539,7 +539,9 @@ class Resolver:
 
     def get_varname(self, subp_name: str, depname: str) -> T.Optional[str]:
         wrap = self.wraps.get(subp_name)
-        return wrap.provided_deps.get(depname) if wrap else None
+        # Python's ini parser converts all key values to lowercase.
+        # Thus the query name must also be in lower case (see find_dep_provider).
+        return wrap.provided_deps.get(depname.lower()) if wrap else None
 
     def find_program_provider(self, names: list[str | mesonlib.File]) -> T.Optional[SubProject]:
         for name in names:
